@@ -6,12 +6,14 @@ from ..core import Violation
 from ..world import World
 
 PID = 'C03'
+DISC_FAULT = 'application disconnect handler fault'
 RULE = ('Model-based stateful testing: Hypothesis-generated histories over '
         '{connect, enter_room, leave_room, close_room, client DISCONNECT, '
         'server.disconnect, transport loss, emit(to=None|room|list|sid, '
         'skip_sid=None|sid|list, namespace), ops on unknown namespaces, '
         'late enter_room / leave_room for clients that have gone, a '
-        'recipient whose transport dies during an emit} run '
+        'recipient whose transport dies during an emit, an application '
+        'disconnect handler that raises or ends with CancelledError} run '
         'against the real Server/AsyncServer on real engine.io sockets and '
         'against a set-based room model; after every emit the per-transport '
         'queues must contain exactly the expected recipients once each, and '
@@ -91,6 +93,11 @@ def strategy(tier):
     return st.fixed_dictionaries({
         'aio': st.booleans(),
         'ntrans': st.integers(2, 6),
+        # the application's disconnect handler fails at its k-th invocation
+        # (asyncio: a coroutine handler, 'cancel' = ends with CancelledError)
+        'disc_fault': st.one_of(st.none(), st.none(), st.fixed_dictionaries({
+            'k': st.integers(0, 3),
+            'exc': st.sampled_from(['raise', 'cancel'])})),
         'init': st.tuples(st.lists(connect, min_size=3, max_size=8),
                           st.lists(enter, min_size=2, max_size=8)).map(
             lambda t: t[0] + t[1]),
@@ -149,8 +156,26 @@ def check_case(case):
 
 def _run(case, w):
     sio = w.sio
+    df = case.get('disc_fault')
+    dstate = {'n': 0}
+
+    def d_hit():
+        n = dstate['n']
+        dstate['n'] += 1
+        if df and n == df['k']:
+            if df['exc'] == 'cancel' and case['aio']:
+                import asyncio
+                raise asyncio.CancelledError()
+            raise RuntimeError(DISC_FAULT)
+    if case['aio']:
+        async def on_disc(sid, reason):
+            d_hit()
+    else:
+        def on_disc(sid, reason):
+            d_hit()
     for n in NSS:
         sio.on('connect', (lambda sid, environ, auth=None: None), namespace=n)
+        sio.on('disconnect', on_disc, namespace=n)
     for _ in range(case['ntrans']):
         w.open()
     m = Model()
@@ -266,7 +291,11 @@ def _run(case, w):
             if ci is None:
                 continue
             c = w.clients[ci]
-            w.do(sio.disconnect(c['sid'], namespace=c['ns']))
+            try:
+                w.do(sio.disconnect(c['sid'], namespace=c['ns']))
+            except RuntimeError as e:
+                if DISC_FAULT not in str(e):
+                    raise
             w.mark_dead(ci)
             note_gone(ci)
             m.gone(ci)
